@@ -47,11 +47,48 @@ class Report:
         self.extra_cov: dict[str, T.Any] = {}
 
     # -- recording ------------------------------------------------------------------
+    # -- borrowing the rules of another property -----------------------------------------
+    # A rule of property X that is also a necessary condition of property Y is run by Y under an id of its own: inside
+    # `with rep.borrow({"C11.R3": ("C10.R12", "why it is a clause of C10")})` every record for a mapped rule is re-labelled and every
+    # other record (rules, obligations, floors, notes, statistics) is dropped.
+    _borrow: dict[str, tuple] | None = None
+
+    def borrow(self, mapping: dict[str, tuple]) -> "T.Any":
+        rep = self
+
+        class _Ctx:
+            def __enter__(self) -> None:
+                self.prev = rep._borrow
+                self.expl = getattr(rep, "explanation", None)
+                self.level = getattr(rep, "level", None)
+                rep._borrow = mapping
+
+            def __exit__(self, *a: T.Any) -> None:
+                rep._borrow = self.prev
+                if self.expl is not None:
+                    rep.explanation = self.expl
+                if self.level is not None:
+                    rep.level = self.level
+        return _Ctx()
+
     def rule(self, rule: str, text: str) -> None:
+        if self._borrow is not None:
+            if rule not in self._borrow:
+                return
+            new, why = self._borrow[rule][0], self._borrow[rule][1]
+            self.rule_texts[new] = f"{why} [rule {rule}, decided here under this property's id] {text}"
+            return
         self.rule_texts[rule] = text
 
     def ob(self, rule: str, key: str, ok: bool, where: str, detail: str, witness: T.Any = None) -> bool:
         """Record one obligation.  key = tree|function|construct (rule id is prefixed)."""
+        if self._borrow is not None:
+            if rule not in self._borrow:
+                return bool(ok)
+            entry = self._borrow[rule]
+            if len(entry) > 2 and not entry[2](key, detail):
+                return bool(ok)             # an instance of the lender's rule that is not a clause of the borrowing property
+            rule = entry[0]
         full = f"{rule}|{key}"
         n = sum(1 for o in self.obligations if o.key == full or o.key.startswith(full + "#"))
         if n:
@@ -60,15 +97,23 @@ class Report:
         return bool(ok)
 
     def note(self, text: str) -> None:
+        if self._borrow is not None:
+            return
         if text not in self.notes:
             self.notes.append(text)
 
     def assume(self, text: str) -> None:
+        if self._borrow is not None:
+            return
         if text not in self.assumptions:
             self.assumptions.append(text)
 
     def floor(self, rule: str, what: str, count: int, minimum: int) -> None:
         """Instance floor: the rule must have located at least `minimum` anchors."""
+        if self._borrow is not None:
+            if rule not in self._borrow:
+                return
+            rule = self._borrow[rule][0]
         self.floors.append({"rule": rule, "what": what, "count": count, "floor": minimum})
         if count < minimum:
             # deferred: a concrete violation found elsewhere on this tree wins over "anchor lost"
@@ -76,6 +121,8 @@ class Report:
                 f"{rule}: located {count} {what}, fewer than the {minimum} confirmed by hand - anchor lost")
 
     def stat(self, name: str, value: T.Any) -> None:
+        if self._borrow is not None:
+            return
         self.stats[name] = value
 
     # -- finishing ------------------------------------------------------------------
